@@ -7,12 +7,12 @@ from .common import absorb, blank, brief_scn, run_scn, termination
 ID = 'C14'
 LEVEL = 'exploration'
 TIERS = {'quick': 5000, 'thorough': 300000}
-RULE = ('2-3 baton-scheduled threads (or asyncio tasks) each opening 2-4 streams on one device (some OPENs refused by the device so that opens fail while others are in flight), with opcode-level pre-emption inside AdbDevice._open '
+RULE = ('2-3 baton-scheduled threads (or asyncio tasks) each opening 2-4 streams on one device (some OPENs refused by the device, some answered only after the read timeout of the host, so that opens fail while others are in flight and their streams stay live on the device), with opcode-level pre-emption inside AdbDevice._open '
         'and line-level pre-emption elsewhere (dense and PCT policies), the id counter preset to values near 0 and 2^32 (..., 2^32-2, 2^32-1); plus '
         'sequential wrap-around sessions. Oracle on the device side: every OPEN arg0 in [1, 2^32-1] and never the id of a stream that is live at that '
         'moment. non-trivial = a context switch happened inside _open (threads) or the counter wrapped / two streams were live at once (tasks, sequential)')
 ASSUMPTIONS = ['a stream is live from its OPEN until either side has sent CLSE', 'results of the operations are not judged here (K1 may time them out); only OPEN ids']
-EXPECT_PROBES = {'all': ['preempt_in__open', 'preempt_opcode', 'c14_wrapped', 'c14_two_live', 'open_refused']}
+EXPECT_PROBES = {'all': ['preempt_in__open', 'preempt_opcode', 'c14_wrapped', 'c14_two_live', 'open_refused', 'late_open_okay']}
 OWN = ('id-zero', 'id-reused', 'id-range', 'hang', 'no-termination', 'deadlock')
 
 
@@ -39,7 +39,13 @@ def generate(seed, tier):
         actors.append(ops)
     if g.chance(0.5):
         d['refuse'] = ['exec:']       # OPENs of exec: are answered with CLSE(0, id): those opens fail with a timeout
+    if g.chance(0.3):
+        # a busy device answers one OPEN only after the host has given up on it: that stream stays live on the device, its id must not come back
+        d['open_delay'] = {'nth': g.int(0, 4), 'delay': g.pick([3.5, 5.0, 8.0])}
     cfg = {'frag': 'whole', 'call_cost': 1e-5}
+    if d.get('open_delay') and g.chance(0.6):
+        cfg['idle_returns_empty'] = True     # an idle transport returns b'' (so the wait ends in the library's own AdbTimeoutError)
+        cfg['idle_cost'] = 0.05
     if mode == 'threads':
         cfg['sched'] = g.pick(['dense', 'dense', 'pct'])
         cfg['opcode_fns'] = ['_open']
